@@ -59,13 +59,6 @@ Fixpoint sorted_le (l : list Z) : bool :=
   | _ => true
   end.
 
-Fixpoint all2 {A B} (f : A -> B -> bool) (a : list A) (b : list B) : bool :=
-  match a, b with
-  | x :: a', y :: b' => f x y && all2 f a' b'
-  | [], [] => true
-  | _, _ => false
-  end.
-
 (* independent statement of the mapping rule in terms of the reported ranges
    (old_start, old_end, new_start, new_end): p strictly inside range k goes to
    new_start (assoc<0) or new_end; p outside every closed range shifts by the
